@@ -1198,7 +1198,7 @@ impl Engine for C09 {
         "exploration"
     }
     fn rule(&self) -> String {
-        "Seeded portfolio generator (1-4 securities, 1-4 affiliates incl. registered, buys/sells/RoC/manual SfLA/global+per-affiliate splits, CAD and explicit-rate USD, tied cost days, securities differing only in case, 1-3 files, a fifth of the files with a repeated recognised column (second memo/commission) or an unknown column; in --csv-output-dir modes every other later process finds the output directory already holding longer files of the same names from an earlier run; in a quarter of the inputs some USD rows carry no rate and the K processes of a mode run one after the other over one simulated ~/.acb, so the first downloads from the simulated Bank of Canada and the others find its cache) x 7 output modes x K per-process hash seeds (K=6 quick, 24 thorough); each (input, mode, seed) is one simulated process running the real run_acb_app_to_console. Oracle: stdout bytes and (file name, bytes) of the output directory identical across seeds. evaluations = inputs; distinct_nontrivial = distinct inputs (digest of scenario JSON) whose run reached at least one probe (>=2 securities rendered, global split over >=2 affiliates, ignored notes in >=2 securities, tied yearly-max days, auto-SfL shared by >=2 affiliates, gains in >=2 years, summary with >=2 affiliates/securities).".to_string()
+        "Seeded portfolio generator (1-4 securities, 1-4 affiliates incl. registered, buys/sells/RoC/manual SfLA/global+per-affiliate splits, CAD and explicit-rate USD, tied cost days, securities differing only in case, 1-3 files, a fifth of the files with a repeated recognised column (second memo/commission) or an unknown column; in --csv-output-dir modes every other later process finds the output directory already holding longer files of the same names from an earlier run; in a quarter of the inputs some USD rows carry no rate and the K processes of a mode run one after the other over one simulated ~/.acb, so the first downloads from the simulated Bank of Canada and the others find its cache) x 7 output modes x K per-process hash seeds (K=6 quick, 24 thorough); each (input, mode, seed) is one simulated process running the real run_acb_app_to_console. A sixth of the inputs name a security with file-name special characters (RY:TO, BRK/B, A*B, ...). End-to-end lane: a tenth of the inputs without look-ups are also run by the real acb binary (clap, main, exit status, real files) in real OS processes - 3 seeds x 7 modes - whose getrandom/clock/pid come from the simulator through an LD_PRELOAD seam; the seam is probed once per worker (same seed -> same HashSet order, other seed -> other order). Oracle: stdout bytes and (file name, bytes) of the output directory identical across seeds. evaluations = inputs; distinct_nontrivial = distinct inputs (digest of scenario JSON) whose run reached at least one probe (>=2 securities rendered, global split over >=2 affiliates, ignored notes in >=2 securities, tied yearly-max days, auto-SfL shared by >=2 affiliates, gains in >=2 years, summary with >=2 affiliates/securities).".to_string()
     }
     fn state_measure(&self) -> String {
         "distinct (mode, exit status, number of output files, stdout size bucket of 2 KiB) tuples".to_string()
@@ -1208,11 +1208,12 @@ impl Engine for C09 {
             "std HashMap/HashSet keys come from getrandom(), interposed by the harness binary; one fresh thread = one simulated process = one draw of keys".to_string(),
             "GLOBAL_AF_DEDUP_TABLE is shared by simulated processes of one worker; the workload uses one canonical spelling per affiliate id so its content does not depend on history".to_string(),
             "stderr is recorded but not compared (the property names standard output and output files)".to_string(),
-            "clap argument parsing (cmd.rs) is not run in-process; simulation enters at run_acb_app_to_console".to_string(),
+            "clap argument parsing (cmd.rs) is not run in-process; simulation enters at run_acb_app_to_console; the end-to-end lane runs the real binary (clap, main, home-directory look-up) for a tenth of the inputs".to_string(),
+            "end-to-end lane: std in the real binary obtains RandomState keys through the libc getrandom symbol, which LD_PRELOAD overrides (checked by the hashprobe binary once per worker); address-space layout of real processes is not controlled".to_string(),
         ]
     }
     fn real_components(&self) -> Vec<&'static str> {
-        vec!["acb::app::run_acb_app_to_console", "parse_tx_csv", "Tx::try_from", "portfolio::bookkeeping (delta list, superficial loss, costs)", "portfolio::summary", "portfolio::render", "TextWriter/CsvWriter", "std::fs File::open/create/read/write (over SimFs)", "csv, tabled, rust_decimal, time crates"]
+        vec!["the acb binary itself (cmd.rs: clap, main, exit status) in the end-to-end lane", "acb::app::run_acb_app_to_console", "parse_tx_csv", "Tx::try_from", "portfolio::bookkeeping (delta list, superficial loss, costs)", "portfolio::summary", "portfolio::render", "TextWriter/CsvWriter", "std::fs File::open/create/read/write (over SimFs)", "csv, tabled, rust_decimal, time crates"]
     }
     fn stub_components(&self) -> Vec<&'static str> {
         vec!["entropy (getrandom -> seeded PRNG)", "kernel file system (SimFs, in memory)", "console (fd 1/2 captured)", "clock (simulated today)", "process boundary (thread)", "HTTP transport (SimBoC when USD rows carry no rate; otherwise no network)", "async runtime (no-op-waker executor)"]
